@@ -22,7 +22,8 @@ pub fn run<C: Suite>(ctx: &mut Ctx) {
         return;
     }
     let need: u64 = ctx.scale(4, 64);
-    let roots = ["absent", "empty", "32-bytes", "5-bytes", "100-bytes", "untweaked"];
+    // special contents as well as special lengths: an all-zero root is a root like any other
+    let roots = ["absent", "empty", "32-bytes", "5-bytes", "100-bytes", "untweaked", "32-zero-bytes", "1-zero-byte", "32-ff-bytes"];
     for source in ["dealer", "dkg"] {
         for root in roots {
             // one item per (source, root): loops over seeds until every parity cell was observed `need` times
@@ -89,6 +90,9 @@ fn one_session(ctx: &mut Ctx, source: &str, root: &str, iter: u64) -> Option<Str
         "empty" => Some(vec![]),
         "32-bytes" => Some(p.bytes(32)),
         "5-bytes" => Some(p.bytes(5)),
+        "32-zero-bytes" => Some(vec![0u8; 32]),
+        "1-zero-byte" => Some(vec![0u8]),
+        "32-ff-bytes" => Some(vec![0xffu8; 32]),
         _ => Some(p.bytes(100)),
     };
     let tweaked = root != "untweaked";
